@@ -12,8 +12,14 @@ import (
 // finishDirect runs the oracles every scenario on the direct topology shares:
 // the wire-protocol automaton (reported under C06/…) and id uniqueness (C05/…).
 func finishDirect(d *env.Direct, w *env.World, alive bool) {
-	env.CheckWire(d.Tap, d.Pipe.Opts.Name, "a2b", alive, w)
-	vsched.SetWire(d.Tap.WireLog(d.Pipe.Opts.Name))
+	wire := d.Pipe.Opts.Name
+	if d.Rewriting && d.Link != nil {
+		// behind a proxy that translates the dialled name the protocol automaton (its addressing
+		// clause in particular) is evaluated where both directions use the server's own name
+		wire = d.Link.Opts.Name
+	}
+	env.CheckWire(d.Tap, wire, "a2b", alive, w)
+	vsched.SetWire(d.Tap.WireLog(wire))
 	for _, s := range w.Stray {
 		vsched.Fail("C05/stray|handler", "a handler ran for a request nobody sent: %s", s)
 	}
@@ -54,6 +60,9 @@ func withHistory(pres []string, scs ...*explore.Scenario) []*explore.Scenario {
 			c := *sc
 			base := sc.Run
 			c.Name = sc.Name + "/after=" + pre
+			if c.Deepen == 0 {
+				c.Deepen = c.Bound // variants are explored at the wrapped scenario's own bound; deepening is left to the base scenario
+			}
 			c.Run = func() {
 				env.Preamble = pre
 				defer func() { env.Preamble = "" }()
@@ -98,6 +107,9 @@ func withConfig(cfgs []string, scs ...*explore.Scenario) []*explore.Scenario {
 			c := *sc
 			base := sc.Run
 			c.Name = sc.Name + "/with=" + cfg
+			if c.Deepen == 0 {
+				c.Deepen = c.Bound
+			}
 			c.Run = func() {
 				env.Config = cfg
 				env.ConfigUses = map[string]int{}
@@ -125,6 +137,9 @@ func withoutDisconnectCallback(scs ...*explore.Scenario) []*explore.Scenario {
 		c := *sc
 		base := sc.Run
 		c.Name = sc.Name + "/no-disconnect-callback"
+		if c.Deepen == 0 {
+			c.Deepen = c.Bound
+		}
 		c.Run = func() {
 			env.ProxyNoCallback = true
 			defer func() { env.ProxyNoCallback = false }()
